@@ -833,6 +833,9 @@ class Aspire:
             config_dict["xp"] = resolve_xp(config_dict["xp"])
         config_dict["log_likelihood"] = log_likelihood
         config_dict["log_prior"] = log_prior
+        # The flow options were given to Aspire as extra keyword arguments
+        flow_kwargs = config_dict.pop("flow_kwargs", None) or {}
+        config_dict = {**flow_kwargs, **config_dict}
 
         aspire = Aspire(**config_dict)
 
